@@ -44,10 +44,13 @@ func spellings(word string, keepFirst bool) []string {
 
 // exhaustiveGate compiles, in one package, one template per spelling of the element and attribute
 // names (a browser matches both without regard to letter case) in the plain and the conditional
-// form, each filled with a plain string. Every one of them has to be refused by the compiler.
+// form, each filled with a plain string. Every one of them has to be refused: by the compiler, or already
+// by the parser (today element names must begin with a lower-case letter; a parser that starts to accept
+// <A href> or <Form action> must gate them too).
 func exhaustiveGate() (n int, missing []string) {
 	files := map[string]string{"main.go": gateMain}
 	names := map[string]string{}
+	refused := map[string]bool{}
 	add := func(el, at string) {
 		for _, cond := range []bool{false, true} {
 			id := fmt.Sprintf("g%04d", len(names))
@@ -57,14 +60,20 @@ func exhaustiveGate() (n int, missing []string) {
 			} else {
 				src = fmt.Sprintf("package main\n\ntempl T%s(s string) {\n\t<%s %s={ s }>x</%s>\n}\n", id, el, at, el)
 			}
-			files[id+".templ"] = src
 			names[id] = fmt.Sprintf("<%s %s={ string }> conditional=%v", el, at, cond)
+			if _, _, _, err := tgen.Generate(src, id+".templ"); err != nil {
+				refused[id] = true // not a template at all
+				continue
+			}
+			files[id+".templ"] = src
 		}
 	}
-	for _, at := range spellings("href", false) {
-		add("a", at)
+	for _, el := range spellings("a", false) {
+		for _, at := range spellings("href", false) {
+			add(el, at)
+		}
 	}
-	for _, el := range spellings("form", true) {
+	for _, el := range spellings("form", false) {
 		for _, at := range spellings("action", false) {
 			add(el, at)
 		}
@@ -77,7 +86,6 @@ func exhaustiveGate() (n int, missing []string) {
 	if err == nil {
 		out = ""
 	}
-	refused := map[string]bool{}
 	for _, line := range strings.Split(out, "\n") {
 		if !strings.Contains(line, "SafeURL") {
 			continue
